@@ -12,7 +12,7 @@ from common import Ctx, driver_json, fmt, rel_close
 import uni_common as U
 
 PROPERTY = "C08"
-LEAN_MODULES = ["Proofs.C08", "Proofs.C08.Bar", "Proofs.C08.Ops"]
+LEAN_MODULES = ["Proofs.C08", "Proofs.C08.Bar", "Proofs.C08.Ops", "Proofs.C08.Shares"]
 DRIVERS = ["driver"]
 RULE = ("(a) direct V3CoreLib.update_fee on random (previous close | nan, close, range, own/pool liquidity, volumes, decimals, fee tier, tick dtype "
         "python-int/int64/float64) with a boundary stream (close or previous close exactly on a bound, one tick inside, jump across the whole range "
@@ -231,6 +231,15 @@ def gen_run(rng, pool):
             ticks.append(c + rng.choice((-w, w, 0, -w - 1, w - 1)))   # on the bounds of the central range
     in0 = [rng.randint(0, 10 ** rng.randint(6, 24)) for _ in range(n)]
     in1 = [rng.randint(0, 10 ** rng.randint(6, 24)) for _ in range(n)]
+    for k in range(n):
+        # one-directional bars: only one of the two tokens flowed in (or none did); the other token's fee is still owed
+        r = rng.random()
+        if r < 0.12:
+            in0[k] = 0
+        elif r < 0.24:
+            in1[k] = 0
+        elif r < 0.28:
+            in0[k] = in1[k] = 0
     liqs = [rng.randint(10 ** 10, 10 ** 22) for _ in range(n)]
     ranges = [(c - w, c + w), (c - 3 * w, c - w), (c + w, c + 4 * w), (c - 6 * w, c + 6 * w), (c, c + sp)]
 
@@ -379,6 +388,19 @@ def check_run(ctx, pool, case, recs, run_err, rep, reqs, tagp):
             if err is not None:
                 ctx.violate(f"update.raises.{err}.{case['dtype']}", f"update() raised {err} in bar {k} (tick {prev} -> {ticks[k]}, tick dtype {case['dtype']})", rep)
                 continue
+            # several positions (theorems C08_shares_sum / C08_total_fee_le_volume): whatever the ranges, all positions together earn at most
+            # volume x fee rate x (own total / (pool + own total)) per token, and each at most what it would earn alone, own / (pool + own)
+            pool_liq = Fraction(case["liqs"][k])
+            rs = [(int(p["lower"]), int(p["upper"])) for p in before["positions"] if int(p["liq"]) > 0]
+            if any(a[0] < b[1] and b[0] < a[1] for i, a in enumerate(rs) for b in rs[i + 1:]):
+                ctx.count("bars_with_overlapping_positions")
+            for t, (dec, vol) in enumerate(((d0, case["in0"][k]), (d1, case["in1"][k]))):
+                total = sum(Fraction(pa[f"p{t}"]) - Fraction(pb[f"p{t}"]) for pb, pa in zip(before["positions"], after["positions"]))
+                cap = Fraction(vol, 10 ** dec) * fee * Fraction(own) / D if D else Fraction(0)
+                scale = max([abs(Fraction(pa[f"p{t}"])) for pa in after["positions"]] + [cap, Fraction(1, 10 ** 30)])
+                if total > cap + TOL * scale * (len(after["positions"]) + 1):
+                    ctx.violate("bar_fee.total_exceeds_share", f"bar {k}: the {len(before['positions'])} positions together earned {float(total):.10g} of token{t}, more than "
+                                f"volume*fee*own/(pool+own) = {float(cap):.10g} (own {own}, pool {case['liqs'][k]})", rep)
             for pb, pa in zip(before["positions"], after["positions"]):
                 lo, up, liq = int(pb["lower"]), int(pb["upper"]), int(pb["liq"])
                 pf = U.path_fraction(prev, ticks[k], lo, up)
@@ -386,6 +408,10 @@ def check_run(ctx, pool, case, recs, run_err, rep, reqs, tagp):
                     b, a = Fraction(pb[f"p{t}"]), Fraction(pa[f"p{t}"])
                     exp = Fraction(vol, 10 ** dec) * fee * pf * Fraction(liq) / D
                     got = a - b
+                    alone = Fraction(vol, 10 ** dec) * fee * pf * Fraction(liq) / (pool_liq + liq) if pool_liq + liq else Fraction(0)
+                    if got > alone + TOL * max(abs(a), alone):
+                        ctx.violate("bar_fee.share_above_alone", f"bar {k}: position [{lo},{up}) earned {float(got):.10g} of token{t}, more than with the share "
+                                    f"own/(pool+own) = {liq}/({case['liqs'][k]}+{liq}) it would have as the only position ({float(alone):.10g})", rep)
                     if got < 0:
                         ctx.violate("bar_fee.negative", f"bar {k}: negative accrual {got}", rep)
                     if abs(got - exp) > TOL * max(abs(b), exp):
